@@ -374,6 +374,95 @@ fn check_type<F: Flt + Serialize + DeserializeOwned, D: Subject<F> + Serialize +
     st.sample(|| json!({"type": tn, "fields": slot_names, "example": serde_json::to_value(D::build(d, &Parts { vals: (0..n).map(|i| F::from64(part_value(i, 1))).collect(), present: vec![] })).unwrap()}));
 }
 
+
+/// replaces (Some) or removes (None) the leaf at a dotted path
+fn with_leaf(v: &Value, path: &str, new: Option<Value>) -> Value {
+    let mut out = v.clone();
+    let keys: Vec<&str> = path.split('.').collect();
+    let mut cur = &mut out;
+    for k in &keys[..keys.len() - 1] {
+        cur = cur.get_mut(*k).unwrap();
+    }
+    let last = keys[keys.len() - 1];
+    match new {
+        Some(x) => {
+            cur.as_object_mut().unwrap().insert(last.to_string(), x);
+        }
+        None => {
+            cur.as_object_mut().unwrap().remove(last);
+        }
+    }
+    out
+}
+
+/// History with rejected inputs: documents that are malformed in exactly one part (a string, null,
+/// an array or an object in place of the number; the member missing; the text cut off behind the
+/// member), each offered `REJECTS` times through from_value and from_str. Nothing is demanded of
+/// these calls (the property does not speak about malformed input); what is demanded is that the
+/// round trip of valid values holds afterwards exactly as before, on the same thread.
+const REJECTS: usize = 130;
+fn poison<F: Flt + Serialize + DeserializeOwned, D: Subject<F> + Serialize + DeserializeOwned>(st: &mut Stats) {
+    let d = Dims::NONE;
+    let n = D::layout(d).nslots();
+    let vals: Vec<F> = (0..n).map(|i| F::from64(1.5 + i as f64 * 0.25)).collect();
+    let x = D::write(d, &mut vals.iter().copied(), &mut std::iter::repeat(true));
+    let v = serde_json::to_value(&x).unwrap();
+    let mut lv = Vec::new();
+    leaves(&v, "", &mut lv);
+    for (path, _) in &lv {
+        let mut docs: Vec<Value> = vec![
+            with_leaf(&v, path, Some(json!("n/a"))),
+            with_leaf(&v, path, Some(Value::Null)),
+            with_leaf(&v, path, Some(json!([1.0]))),
+            with_leaf(&v, path, Some(json!({"x": 1.0}))),
+            with_leaf(&v, path, None),
+        ];
+        docs.push(with_leaf(&v, path, Some(json!(true))));
+        for doc in &docs {
+            let text = doc.to_string();
+            let cut = &text[..text.len() / 2];
+            for _ in 0..REJECTS {
+                let _ = serde_json::from_value::<D>(doc.clone());
+                let _ = serde_json::from_str::<D>(&text);
+                let _ = serde_json::from_str::<D>(cut);
+                st.evaluations += 3;
+                st.transitions += 3;
+            }
+        }
+    }
+    *st.counters.entry("rejected documents offered before the second pass".into()).or_insert(0) += (lv.len() * 6 * 3 * REJECTS) as u64;
+}
+
+fn after_rejected_inputs(st: &mut Stats) {
+    poison::<f64, Dual64>(st);
+    poison::<f32, Dual32>(st);
+    poison::<f64, Dual2_64>(st);
+    poison::<f64, Dual3_64>(st);
+    poison::<f64, HyperDual64>(st);
+    poison::<f64, HyperHyperDual64>(st);
+    poison::<f32, HyperHyperDual32>(st);
+    poison::<f64, Dual<Dual64, f64>>(st);
+    poison::<f64, Dual3<HyperDual64, f64>>(st);
+    let mut second = Stats::default();
+    check_type::<f64, Dual64>(&mut second, false);
+    check_type::<f32, Dual32>(&mut second, false);
+    check_type::<f64, Dual2_64>(&mut second, false);
+    check_type::<f32, Dual2_32>(&mut second, false);
+    check_type::<f64, Dual3_64>(&mut second, false);
+    check_type::<f64, HyperDual64>(&mut second, false);
+    check_type::<f64, HyperHyperDual64>(&mut second, false);
+    check_type::<f32, HyperHyperDual32>(&mut second, false);
+    check_type::<f64, Dual<Dual64, f64>>(&mut second, false);
+    check_type::<f64, Dual3<HyperDual64, f64>>(&mut second, false);
+    check_type::<f64, Dual<Dual<Dual64, f64>, f64>>(&mut second, false);
+    st.evaluations += second.evaluations;
+    st.transitions += second.transitions;
+    for (sig, (n, v)) in second.violations {
+        st.evaluations += 1;
+        st.violation(Violation { sig: format!("{sig} (after rejected inputs)"), case: json!({"history": format!("every part of every type replaced by a malformed member, {REJECTS} times each, on the same thread; then the valid value"), "class": sig, "cases": n, "case": v.case}), what: format!("only after malformed documents were rejected on the same thread: {}", v.what) });
+    }
+}
+
 fn run_all(st: &mut Stats) {
     check_type::<f64, Dual64>(st, true);
     check_type::<f32, Dual32>(st, true);
@@ -392,6 +481,7 @@ fn run_all(st: &mut Stats) {
     check_type::<f64, HyperHyperDual<Dual64, f64>>(st, false);
     check_type::<f32, Dual<Dual32, f32>>(st, true);
     check_type::<f64, Dual<Dual<Dual64, f64>, f64>>(st, false);
+    after_rejected_inputs(st);
 }
 
 /// the single-precision types first (state shared between the monomorphisations of a generic helper -
@@ -457,7 +547,7 @@ fn main() {
         mode: cli.mode,
         seed: cli.seed,
         start,
-        rule: "Dual, Dual2, Dual3, HyperDual, HyperHyperDual over f32 and f64 and the nestings Dual<Dual>, Dual<Dual<Dual>>, Dual2<Dual>, Dual3<HyperDual>, HyperDual<Dual2>, HyperHyperDual<Dual> x parts from {0, -0, 1.5, -2.25, 1/3, pi, smallest denormal, MAX, -MIN_POSITIVE, 0.1, 0.1f32 and -1e15f32 widened, three single-precision values that need nine digits}: full product for <= 4 parts, each part sweeping the alphabet with pairwise distinct other parts beyond; through serde_json::Value (bit-exact), through JSON text for every value whose bare float survives the text format bit for bit, with the field order read off the serialized text, embedded in a user struct with #[serde(flatten)], with the field list announced to the Deserializer and the member count announced to the Serializer compared with the stored members; the whole enumeration (per-part sweeps) also in a fresh process that handles the single-precision types first. Non-trivial: every value.".into(),
+        rule: "Dual, Dual2, Dual3, HyperDual, HyperHyperDual over f32 and f64 and the nestings Dual<Dual>, Dual<Dual<Dual>>, Dual2<Dual>, Dual3<HyperDual>, HyperDual<Dual2>, HyperHyperDual<Dual> x parts from {0, -0, 1.5, -2.25, 1/3, pi, smallest denormal, MAX, -MIN_POSITIVE, 0.1, 0.1f32 and -1e15f32 widened, three single-precision values that need nine digits}: full product for <= 4 parts, each part sweeping the alphabet with pairwise distinct other parts beyond; through serde_json::Value (bit-exact), through JSON text for every value whose bare float survives the text format bit for bit, with the field order read off the serialized text, embedded in a user struct with #[serde(flatten)], with the field list announced to the Deserializer and the member count announced to the Serializer compared with the stored members; the whole enumeration (per-part sweeps) also in a fresh process that handles the single-precision types first; and once more on the same thread after a history of rejected inputs (for nine types every member in turn replaced by a string, null, a boolean, an array, an object, or left out, and the text cut in half, each offered 130 times through from_value and from_str). Non-trivial: every value.".into(),
         assumptions: vec!["serde_json::Value holds numbers as f64, so f32 and f64 parts are represented exactly; JSON text is only used for values it represents exactly, decided on the bare float".into()],
         extra: json!({}),
         exhaustive: true,
